@@ -97,6 +97,9 @@ func genBinTimestamps(r *vhlib.Rng, g, S uint64, n int) []uint64 {
 		if S == 1 {
 			d = 0
 			k = int64(r.Range(-40, 40))
+		} else if S < 8 {
+			// 7 spans of a few ms hold fewer than n distinct timestamps (the loop would never end): more spans
+			k = int64(r.Range(-40, 40))
 		}
 		ts := uint64(int64(g) + k*int64(S) + d)
 		if !seen[ts] {
